@@ -13,6 +13,29 @@ import (
 func init() { register("C10", "other", checkC10) }
 
 // hasDeferredRecover: fn defers a closure that calls recover().
+// recoversBefore: a deferred function that calls recover() is registered on
+// every path before instruction at (a recover registered behind the send does
+// not protect it).
+func recoversBefore(fn *ssa.Function, at ssa.Instruction) bool {
+	found := false
+	instrsOf(fn, func(in ssa.Instruction) {
+		d, ok := in.(*ssa.Defer)
+		if !ok || !instrDominates(d, at) {
+			return
+		}
+		cf := deferCallee(d)
+		if cf == nil || cf.Blocks == nil {
+			return
+		}
+		instrsOf(cf, func(x ssa.Instruction) {
+			if c, ok := x.(ssa.CallInstruction); ok && builtinName(c) == "recover" {
+				found = true
+			}
+		})
+	})
+	return found
+}
+
 func hasDeferredRecover(fn *ssa.Function) bool {
 	found := false
 	instrsOf(fn, func(in ssa.Instruction) {
@@ -599,7 +622,7 @@ func checkC10(c *Check, p *Program) {
 				if mc, ok := stripConv(resolveFree(x.Chan)).(*ssa.MakeChan); ok && closedLocals[mc] {
 					closed = true
 				}
-				c.Decide(closed && hasDeferredRecover(fn), "C10.K5", fnName+" plain send can be left", pos, "the channel is closed on serve's exit and the resulting panic is recovered", "a plain blocking send that nothing interrupts: the goroutine leaks when nobody receives")
+				c.Decide(closed && recoversBefore(fn, in), "C10.K5", fnName+" plain send can be left", pos, "the channel is closed on serve's exit and the resulting panic is recovered", "a plain blocking send that nothing interrupts: the goroutine leaks when nobody receives")
 			case *ssa.UnOp:
 				nBlock++
 				c.Fail("C10.K5", fnName+" plain receive", pos, "a plain blocking receive outside a select cannot be interrupted by Close")
@@ -673,7 +696,7 @@ func checkC10(c *Check, p *Program) {
 				inCloser = false
 			}
 		}
-		c.Decide(inCloser || hasDeferredRecover(op.Fn), "C10.K6", FuncName(op.Fn)+" send on a channel that gets closed", p.InstrPos(op.Instr), "runs in the closing goroutine or recovers", "this send can execute after serve closed the channel and nothing recovers the 'send on closed channel' panic: it escapes the library")
+		c.Decide(inCloser || recoversBefore(op.Fn, op.Instr), "C10.K6", FuncName(op.Fn)+" send on a channel that gets closed", p.InstrPos(op.Instr), "runs in the closing goroutine or recovers", "this send can execute after serve closed the channel and nothing recovers the 'send on closed channel' panic: it escapes the library")
 	}
 	c.Floor("C10.K6", "sends on channels that are closed on exit", nSend, 3)
 
